@@ -248,6 +248,7 @@ func Run(spec Spec) *Result {
 	init := qmodel.New(cfg, qsys.T0)
 	init.Edges = edges // shared; guarded by edgeMu
 	init.PostHasLeases = true
+	revalidate := spec.Backend == "memory" && cfg.DLQMaxDepth > 0
 	var edgeMu sync.Mutex
 	var selfChecks int
 	var stepN int64
@@ -265,10 +266,26 @@ func Run(spec Spec) *Result {
 		Step: func(w int, hist []qmodel.Op, st *qmodel.Model, op qmodel.Op) bfs.StepResult[*qmodel.Model] {
 			sys := get(w)
 			sys.Reset()
-			sys.Replay(hist)
-			m := st.Clone()
 			local := map[string]int{}
-			m.Edges = local
+			var m *qmodel.Model
+			if revalidate {
+				// The memory backend breaks DLQ-depth ties by map iteration order, so the same history may take another
+				// (equally legal) branch when replayed: re-derive the model along the replay instead of trusting the
+				// snapshot taken when the history was first explored.
+				m = init.Clone()
+				m.Edges = local
+				for i, h := range hist {
+					obs := sys.Do(h)
+					if why := m.Apply(h, obs, sys.Snapshot()); why != "" {
+						return bfs.StepResult[*qmodel.Model]{Violation: fmt.Sprintf("(while replaying step %d %s) %s", i, h, why), Label: obs.Err}
+					}
+				}
+				st = m.Clone()
+			} else {
+				sys.Replay(hist)
+				m = st.Clone()
+				m.Edges = local
+			}
 			obs := sys.Do(op)
 			post := sys.Snapshot()
 			why := m.Apply(op, obs, post)
